@@ -350,6 +350,8 @@ def oracle(run, deep):
             extra.append((k0, stages, k, o, pulls, ticks, per, text))
     checked = 0
     for k0, stages, k, o, pulls, ticks, per, text in list(meta) + extra:
+        if o[0] == "err":
+            continue            # an error was raised (and agreed with the model in C): the twin of `need` is about results
         if k is None:
             # searches: the deciding element, computed on the prefix
             nd = search_need(k0, stages)
